@@ -159,6 +159,22 @@ func ruleU2(c *Ctx) {
 		}
 	}
 	c.ok("U2", "stub.UpdateContainers/result", rpc.Pos(), okRet, "the stub returns the response's Failed list and the RPC error", "the stub does not return (response.Failed, err)")
+	// the call waits for the runtime's answer: its context carries no deadline of the stub's own, since the
+	// runtime applies the update exactly once however long it takes (lock wait plus callback)
+	okCtx := false
+	ctxArg := rpc.Common().Args[0]
+	for _, src := range valueSources(ctxArg, rpc, 0) {
+		if cc, ok := src.(*ssa.Call); ok {
+			if g := m.callee(cc.Common()); g != nil && (g.String() == "context.Background" || g.String() == "context.TODO") {
+				okCtx = true
+				continue
+			}
+		}
+		okCtx = false
+		break
+	}
+	c.ok("U2", "stub.UpdateContainers/no-deadline", rpc.Pos(), okCtx, "the stub waits for the runtime's own result (a context without deadline)",
+		"the request is made with a derived context (a timeout or cancellation of the stub's own): when the runtime takes longer — waiting for other requests or in its callback — the update is still applied once, but the plugin is told 'deadline exceeded' instead of the callback's failed list or error")
 }
 
 func ruleU3(c *Ctx) {
